@@ -76,6 +76,7 @@ type tRec struct {
 	cutU1    int64
 	terminal chan struct{}
 	termOnce sync.Once
+	guard    spareGuard
 }
 
 func newTRec() *tRec {
@@ -151,7 +152,7 @@ func renderTimedErr(err error) string {
 
 func timedObserver[T any](r *tRec, render func(T) string) ro.Observer[T] {
 	return ro.NewObserverWithContext(
-		func(ctx context.Context, v T) { r.deliver(render(v), false) },
+		func(ctx context.Context, v T) { r.guard.claim(any(v)); r.deliver(render(v), false) },
 		func(ctx context.Context, err error) { r.deliver(renderTimedErr(err), true) },
 		func(ctx context.Context) { r.deliver("C", true) },
 	)
@@ -494,6 +495,9 @@ func runTimed(c *Case) string {
 	default:
 	}
 	atomic.StoreInt32(&src.stopped, 1)
+	if rec.guard.bad() {
+		c.set("spare", "bad")
+	}
 
 	return strconv.FormatInt(subStamp, 10) + "|" + renderEntries(emits) + "|" + renderEntries(dels) + "|" + cutStr + "|" + flags
 }
@@ -568,6 +572,9 @@ func runTimedCase(c *Case) string {
 	res := "res " + c.id + " accept=1"
 	if strings.HasSuffix(obs, "|T") {
 		res += " hto=1"
+	}
+	if c.get("spare", "") == "bad" {
+		res += " _flag=spare-capacity-of-a-delivered-slice-overwritten"
 	}
 	return res
 }
